@@ -2,8 +2,10 @@
    rounding: for every microsecond field 0 <= us < 10^6 the float computation
    int(us / 1000) (and the expressions of Bucket.get built on it) equals the integer
    computation.  Each is a proof: the kernel evaluates the boolean check on all 10^6
-   values (vm_compute, in ten chunks of 10^5) and the result is lifted to the
-   quantified statement by [check_upto_spec]. *)
+   values (ten chunks of 10^5; [vm_cast_no_check] leaves the evaluation to the kernel's vm
+   at Qed, so each chunk is evaluated once) and the result is lifted to the quantified
+   statement by [check_upto_spec].  The other expressions (models.py ms floor, Bucket.get
+   window start / end) are derived from it by unfolding.  No axiom is used. *)
 From Coq Require Import ZArith Bool List Lia PrimFloat.
 From AwVerif Require Import Base.Prelude Model.PyFloat.
 Open Scope Z_scope.
@@ -37,25 +39,31 @@ Proof.
   apply andb_prop in H. destruct H as [H1 H2]. apply Z.eqb_eq in H1, H2. now subst.
 Qed.
 
-(* all four expressions at once, so that the 10^6 divisions are evaluated once *)
 Definition ok_us (us : Z) : bool :=
-  res_Z_is (bind (fdiv_int_int us 1000) int_of_float) (us / 1000)
-  && res_Z_is (ms_floor_float us) (1000 * (us / 1000))
-  && res_Z_is (bucket_start_us us) (1000 * (us / 1000))
-  && res_ZZ_is (bucket_end_parts us) ((us / 1000 + 1) / 1000, (1000 * (us / 1000 + 1)) mod 1000000).
+  res_Z_is (bind (fdiv_int_int us 1000) int_of_float) (us / 1000).
 
 Definition chunk : nat := Z.to_nat 100000.
 
-Lemma ok_chunk_0 : check_upto ok_us chunk 0 = true. Proof. vm_compute. reflexivity. Qed.
-Lemma ok_chunk_1 : check_upto ok_us chunk 100000 = true. Proof. vm_compute. reflexivity. Qed.
-Lemma ok_chunk_2 : check_upto ok_us chunk 200000 = true. Proof. vm_compute. reflexivity. Qed.
-Lemma ok_chunk_3 : check_upto ok_us chunk 300000 = true. Proof. vm_compute. reflexivity. Qed.
-Lemma ok_chunk_4 : check_upto ok_us chunk 400000 = true. Proof. vm_compute. reflexivity. Qed.
-Lemma ok_chunk_5 : check_upto ok_us chunk 500000 = true. Proof. vm_compute. reflexivity. Qed.
-Lemma ok_chunk_6 : check_upto ok_us chunk 600000 = true. Proof. vm_compute. reflexivity. Qed.
-Lemma ok_chunk_7 : check_upto ok_us chunk 700000 = true. Proof. vm_compute. reflexivity. Qed.
-Lemma ok_chunk_8 : check_upto ok_us chunk 800000 = true. Proof. vm_compute. reflexivity. Qed.
-Lemma ok_chunk_9 : check_upto ok_us chunk 900000 = true. Proof. vm_compute. reflexivity. Qed.
+Lemma ok_chunk_0 : check_upto ok_us chunk 0 = true.
+Proof. vm_cast_no_check (eq_refl true). Qed.
+Lemma ok_chunk_1 : check_upto ok_us chunk 100000 = true.
+Proof. vm_cast_no_check (eq_refl true). Qed.
+Lemma ok_chunk_2 : check_upto ok_us chunk 200000 = true.
+Proof. vm_cast_no_check (eq_refl true). Qed.
+Lemma ok_chunk_3 : check_upto ok_us chunk 300000 = true.
+Proof. vm_cast_no_check (eq_refl true). Qed.
+Lemma ok_chunk_4 : check_upto ok_us chunk 400000 = true.
+Proof. vm_cast_no_check (eq_refl true). Qed.
+Lemma ok_chunk_5 : check_upto ok_us chunk 500000 = true.
+Proof. vm_cast_no_check (eq_refl true). Qed.
+Lemma ok_chunk_6 : check_upto ok_us chunk 600000 = true.
+Proof. vm_cast_no_check (eq_refl true). Qed.
+Lemma ok_chunk_7 : check_upto ok_us chunk 700000 = true.
+Proof. vm_cast_no_check (eq_refl true). Qed.
+Lemma ok_chunk_8 : check_upto ok_us chunk 800000 = true.
+Proof. vm_cast_no_check (eq_refl true). Qed.
+Lemma ok_chunk_9 : check_upto ok_us chunk 900000 = true.
+Proof. vm_cast_no_check (eq_refl true). Qed.
 
 Lemma ok_us_all : forall us, 0 <= us < 1000000 -> ok_us us = true.
 Proof.
@@ -73,36 +81,29 @@ Proof.
   apply (check_upto_spec _ _ _ ok_chunk_9); lia.
 Qed.
 
-Lemma ok_us_parts : forall us, 0 <= us < 1000000 ->
-  bind (fdiv_int_int us 1000) int_of_float = Ok (us / 1000)
-  /\ ms_floor_float us = Ok (1000 * (us / 1000))
-  /\ bucket_start_us us = Ok (1000 * (us / 1000))
-  /\ bucket_end_parts us = Ok ((us / 1000 + 1) / 1000, (1000 * (us / 1000 + 1)) mod 1000000).
-Proof.
-  intros us H. pose proof (ok_us_all us H) as K. unfold ok_us in K.
-  repeat (apply andb_prop in K; destruct K as [K ?]).
-  repeat split; first [now apply res_Z_is_eq | now apply res_ZZ_is_eq].
-Qed.
+Lemma bind_assoc : forall {A B C} (r : res A) (f : A -> res B) (g : B -> res C),
+  bind r (fun a => bind (f a) g) = bind (bind r f) g.
+Proof. intros A B C [a|c|] f g; reflexivity. Qed.
 
 (* int(us / 1000) == us // 1000 for every microsecond field *)
 Theorem int_div_1000_exact : forall us, 0 <= us < 1000000 ->
   bind (fdiv_int_int us 1000) int_of_float = Ok (us / 1000).
-Proof. intros us H. exact (proj1 (ok_us_parts us H)). Qed.
+Proof. intros us H. apply res_Z_is_eq. exact (ok_us_all us H). Qed.
 
 (* models.py:  int(ts.microsecond / 1000) * 1000  is the field floored to the millisecond *)
 Theorem ms_floor_float_exact : forall us, 0 <= us < 1000000 ->
   ms_floor_float us = Ok (us - us mod 1000).
 Proof.
-  intros us H. rewrite (proj1 (proj2 (ok_us_parts us H))). f_equal.
-  pose proof (Z.div_mod us 1000). lia.
+  intros us H. unfold ms_floor_float. rewrite bind_assoc, (int_div_1000_exact us H).
+  cbn [bind]. f_equal. pose proof (Z.div_mod us 1000). lia.
 Qed.
 
 (* datastore.py Bucket.get, window start *)
 Theorem bucket_start_us_exact : forall us, 0 <= us < 1000000 ->
   bucket_start_us us = Ok (us - us mod 1000).
 Proof.
-  intros us H. rewrite (proj1 (proj2 (proj2 (ok_us_parts us H)))). f_equal.
-  pose proof (Z.div_mod us 1000). lia.
+  intros us H. unfold bucket_start_us. rewrite bind_assoc, (int_div_1000_exact us H).
+  cbn [bind]. f_equal. pose proof (Z.div_mod us 1000). lia.
 Qed.
 
 (* datastore.py Bucket.get, window end: the next whole millisecond, split into a carry
@@ -112,14 +113,16 @@ Theorem bucket_end_parts_exact : forall us, 0 <= us < 1000000 ->
     /\ 0 <= usf < 1000000 /\ (so = 0 \/ so = 1)
     /\ so * 1000000 + usf = (us - us mod 1000) + 1000.
 Proof.
-  intros us H. rewrite (proj2 (proj2 (proj2 (ok_us_parts us H)))).
-  eexists _, _. split; [reflexivity|].
+  intros us H.
   pose proof (Z.div_mod us 1000 ltac:(lia)) as D.
   pose proof (Z.mod_pos_bound us 1000 ltac:(lia)) as B.
   assert (Q : 0 <= us / 1000 < 1000) by (split; [apply Z.div_pos; lia | apply Z.div_lt_upper_bound; lia]).
+  unfold bucket_end_parts. rewrite bind_assoc, (int_div_1000_exact us H). cbn [bind].
   set (q := us / 1000) in *.
+  rewrite bind_assoc, (int_div_1000_exact (1 + q)) by lia. cbn [bind].
+  eexists _, _. split; [reflexivity|].
   destruct (Z.eq_dec q 999) as [->|Hq].
-  - vm_compute ((999 + 1) / 1000). vm_compute ((1000 * (999 + 1)) mod 1000000). lia.
-  - rewrite (Z.div_small (q + 1) 1000) by lia.
-    rewrite (Z.mod_small (1000 * (q + 1)) 1000000) by lia. lia.
+  - vm_compute ((1 + 999) / 1000). vm_compute ((1000 * (1 + 999)) mod 1000000). lia.
+  - rewrite (Z.div_small (1 + q) 1000) by lia.
+    rewrite (Z.mod_small (1000 * (1 + q)) 1000000) by lia. lia.
 Qed.
